@@ -362,6 +362,13 @@ func (sp *spec) build() (func(), func(x *vsched.Exec) (string, error)) {
 				if sp.shape == "subresume-rerun" && attempts == 1 {
 					return nil, compose.InterruptAndRerun
 				}
+				// after the resume: the nested graph's OWN state (restored from its checkpoint), not the parent's
+				if err := compose.ProcessState(ctx, func(ctx context.Context, s *St) error {
+					w.section("sub/body:y", s, sp.yield)
+					return nil
+				}); err != nil {
+					return nil, err
+				}
 				return Val{"y": "sub/y"}, nil
 			}))
 			sub.AddEdge(compose.START, "x")
@@ -508,6 +515,24 @@ func (sp *spec) build() (func(), func(x *vsched.Exec) (string, error)) {
 				}
 			}
 			want := fmt.Sprintf("counter=%d log=%v", len(wantLog)/2, wantLog)
+			// the nested graph's units (x before the interrupt, y after the resume) work on ONE state object that is not
+			// the parent's (state ids survive the checkpoint: they are part of the serialised state)
+			top, inner := map[int]bool{}, map[int]bool{}
+			for who, id := range w.seenBy {
+				if strings.HasPrefix(who, "sub/") {
+					inner[id] = true
+				} else {
+					top[id] = true
+				}
+			}
+			for id := range inner {
+				if top[id] {
+					return "", fmt.Errorf("parent graph and nested stateful graph share state #%d after the resume (units and the state they saw: %v)", id, w.seenBy)
+				}
+			}
+			if len(inner) > 1 {
+				return "", fmt.Errorf("the nested graph's units saw several state objects across the resume: %v", w.seenBy)
+			}
 			if !strings.Contains(got, want) {
 				return "", fmt.Errorf("state after resume: the parent state at the end is not the one execution of a and s (each state handler once): node b saw %s, expected %s", got, want)
 			}
